@@ -41,12 +41,12 @@ func c11Profiles(tier string) []Profile {
 			} else {
 				ls = append(ls, Letter{"SetColl(x)", func(w *harness.World) { w.SetCollection("x", "nil") }})
 			}
-			if _, ok := w.Colls["y"]; ok {
+			if _, ok := w.Colls[yName]; ok {
 				ls = append(ls,
-					Letter{"Set(y.a,2)", func(w *harness.World) { w.SetItem("y", kA, 2, bs("ya")) }},
-					Letter{"Set(y.b,1)", func(w *harness.World) { w.SetItem("y", kB, 1, bs("yb")) }})
+					Letter{"Set(y.a,2)", func(w *harness.World) { w.SetItem(yName, kA, 2, bs("ya")) }},
+					Letter{"Set(y.b,1)", func(w *harness.World) { w.SetItem(yName, kB, 1, bs("yb")) }})
 			} else {
-				ls = append(ls, Letter{"SetColl(y,rev)", func(w *harness.World) { w.SetCollection("y", "rev") }})
+				ls = append(ls, Letter{"SetColl(y,rev)", func(w *harness.World) { w.SetCollection(yName, "rev") }})
 			}
 			ls = append(ls, Letter{"Flush", func(w *harness.World) { w.Flush() }},
 				Letter{"Reopen", func(w *harness.World) { w.Reopen(true) }})
